@@ -115,7 +115,10 @@ def replay(path):
     for o, h, m in zip(ops, hl, ml):
         flag = "" if (h == m or ignorable(h, m)) else "   <-- differs from S"
         print(f"{o:34s} impl: {h}\n{'':34s} spec: {m}{flag}")
-    return 1 if bad else 0
+    # predicates judged on the implementation alone (S may agree with it: the known finding D27)
+    msg = defer_order(ops, hl)
+    if msg: print("implementation-only predicate:", msg)
+    return 1 if (bad or msg) else 0
 
 
 # ---------------------------------------------------------------------------------------------
